@@ -49,6 +49,11 @@ def firstMatchListsName (h : Hello) : List Policy → Bool
 def indexHarmless (ps : List Policy) (h : Hello) : Bool :=
   decide (ps.length ≤ sniIndexThreshold) || !ps.any (·.lists h.sni) || firstMatchListsName h ps
 
+/-- the name contains neither `[` nor `]` — true of every SNI that can complete a handshake on
+    the pinned tree (certmagic's GetCertificate rejects such names; checked end to end by the
+    harness, not modelled) -/
+def noBrackets (s : Bytes) : Bool := s.all fun x => x != cLbr && x != cRbr
+
 /-- a `Host` value for which MatchHost's bracket trimming changes the host it routes by
     (the excluded region of the strict SNI-Host clause) -/
 def bracketTrimmed (host : Bytes) : Bool := routingHost host != enforcementHost host
